@@ -1,0 +1,551 @@
+// Verification hook H6 (guard: --cfg sccache_verif). Not part of normal builds.
+//
+// Drives the real `Scheduler` handlers single-threaded from a script; a scripted
+// `SchedulerOutgoing::do_assign_job` runs *nested* handler calls, which is how "another message
+// overtakes the allocation while its locks are released" is reproduced deterministically.
+// Prints one trace line per step (`<op> -> <result> | <canonical dump of the private maps>`) for the
+// Lean model, and `MONITOR <kind> <detail>` lines when the C18 invariants do not hold on the real state.
+// Also exposes the path arithmetic of build.rs for C19.
+//
+//   SCCACHE_DIST_VERIF=sched-gen:<cases>:<seed>:<trace_out>:<script_out>
+//   SCCACHE_DIST_VERIF=sched-run:<script>:<trace_out>
+//   SCCACHE_DIST_VERIF=paths:<pairs_file>:<out>      (lines `cwd\tpath` -> `cwd\tpath\tjoin\tjoin_suffix\tparent`)
+use super::*;
+use std::cell::RefCell;
+use std::fmt::Write as _;
+use std::net::SocketAddr;
+
+struct Auth;
+impl JobAuthorizer for Auth {
+    fn generate_token(&self, job_id: JobId) -> Result<String> {
+        Ok(format!("tok{}", job_id))
+    }
+    fn verify_token(&self, _: JobId, _: &str) -> Result<()> {
+        Ok(())
+    }
+}
+
+fn sid(i: u64) -> ServerId {
+    let a: SocketAddr = format!("127.0.0.1:{}", 9000 + i).parse().unwrap();
+    ServerId::new(a)
+}
+fn sidx(s: ServerId) -> u64 {
+    (s.addr().port() - 9000) as u64
+}
+fn st(i: u64) -> JobState {
+    [JobState::Pending, JobState::Ready, JobState::Started, JobState::Complete][i as usize]
+}
+fn stn(s: JobState) -> &'static str {
+    match s {
+        JobState::Pending => "pending",
+        JobState::Ready => "ready",
+        JobState::Started => "started",
+        JobState::Complete => "complete",
+    }
+}
+fn stp(s: &str) -> JobState {
+    match s {
+        "pending" => JobState::Pending,
+        "ready" => JobState::Ready,
+        "started" => JobState::Started,
+        _ => JobState::Complete,
+    }
+}
+
+#[derive(Clone, Debug)]
+enum Simple {
+    Hb(u64, u64, u64),
+    Upd(u64, u64, JobState),
+    Status,
+}
+#[derive(Clone, Debug)]
+enum Op {
+    S(Simple),
+    Alloc(String, Vec<Simple>), // outcome of do_assign_job: fail | pending | ready; nested ops
+}
+
+struct Ctx {
+    sched: Scheduler,
+    nonces: Vec<ServerNonce>,
+    out: RefCell<Vec<String>>,
+}
+
+impl Ctx {
+    fn new() -> Ctx {
+        Ctx {
+            sched: Scheduler::new(),
+            nonces: (0..4).map(|_| ServerNonce::new()).collect(),
+            out: RefCell::new(vec!["new".into()]),
+        }
+    }
+    fn dump(&self) -> String {
+        let jobs = match self.sched.jobs.lock() {
+            Ok(j) => j,
+            Err(_) => return "poisoned".into(),
+        };
+        let servers = match self.sched.servers.lock() {
+            Ok(j) => j,
+            Err(_) => return "poisoned".into(),
+        };
+        let mut js: Vec<String> = jobs
+            .iter()
+            .map(|(id, d)| format!("{}:{}:{}", id, sidx(d.server_id), stn(d.state)))
+            .collect();
+        js.sort();
+        let mut ss: Vec<(u64, String)> = servers
+            .iter()
+            .map(|(id, d)| {
+                let mut a: Vec<u64> = d.jobs_assigned.iter().map(|j| j.0).collect();
+                a.sort();
+                let mut u: Vec<u64> = d.jobs_unclaimed.keys().map(|j| j.0).collect();
+                u.sort();
+                let n = self.nonces.iter().position(|x| *x == d.server_nonce).unwrap();
+                (
+                    sidx(*id),
+                    format!(
+                        "{}:{}:{}:{}:a{:?}:u{:?}",
+                        sidx(*id),
+                        d.num_cpus,
+                        n,
+                        if d.last_error.is_some() { "e" } else { "-" },
+                        a,
+                        u
+                    ),
+                )
+            })
+            .collect();
+        ss.sort();
+        format!(
+            "jobs=[{}] servers=[{}]",
+            js.join(","),
+            ss.into_iter().map(|x| x.1).collect::<Vec<_>>().join(";")
+        )
+        .replace(' ', "")
+    }
+    fn log(&self, s: String) {
+        self.out.borrow_mut().push(s);
+    }
+    /// C18 evaluated on the real private state
+    fn monitor(&self, after: &str) {
+        let (jobs, servers) = match (self.sched.jobs.lock(), self.sched.servers.lock()) {
+            (Ok(j), Ok(s)) => (j, s),
+            _ => {
+                self.log(format!("MONITOR poisoned scheduler mutexes are poisoned after {}", after));
+                return;
+            }
+        };
+        for (id, d) in jobs.iter() {
+            match servers.get(&d.server_id) {
+                None => self.log(format!(
+                    "MONITOR attribution job {} is attributed to unregistered server {} after {}",
+                    id,
+                    sidx(d.server_id),
+                    after
+                )),
+                Some(sd) => {
+                    if !sd.jobs_assigned.contains(id) {
+                        self.log(format!(
+                            "MONITOR attribution job {} is not in the assigned set of its server {} after {}",
+                            id,
+                            sidx(d.server_id),
+                            after
+                        ));
+                    }
+                }
+            }
+            let owners = servers.values().filter(|sd| sd.jobs_assigned.contains(id)).count();
+            if owners > 1 {
+                self.log(format!("MONITOR attribution job {} is assigned to {} servers after {}", id, owners, after));
+            }
+            if d.state == JobState::Complete {
+                self.log(format!("MONITOR state live job {} is Complete after {}", id, after));
+            }
+        }
+        for (sidv, sd) in servers.iter() {
+            let cap = sd.num_cpus + 1 + sd.num_cpus / 8;
+            if sd.jobs_assigned.len() > cap {
+                self.log(format!(
+                    "MONITOR capacity server {} has {} jobs assigned, capacity {} after {}",
+                    sidx(*sidv),
+                    sd.jobs_assigned.len(),
+                    cap,
+                    after
+                ));
+            }
+            let attributed = jobs.values().filter(|d| d.server_id == *sidv).count();
+            if attributed > cap {
+                self.log(format!(
+                    "MONITOR capacity server {} has {} live jobs attributed, capacity {} after {}",
+                    sidx(*sidv),
+                    attributed,
+                    cap,
+                    after
+                ));
+            }
+        }
+    }
+    fn simple(&self, op: &Simple) {
+        match op {
+            Simple::Hb(s, n, c) => {
+                let r = std::panic::catch_unwind(std::panic::AssertUnwindSafe(|| {
+                    self.sched.handle_heartbeat_server(
+                        sid(*s),
+                        self.nonces[*n as usize].clone(),
+                        *c as usize,
+                        Box::new(Auth),
+                    )
+                }));
+                let rs = match r {
+                    Ok(Ok(h)) => format!("ok {}", if h.is_new { "new" } else { "old" }),
+                    Ok(Err(_)) => "err -".into(),
+                    Err(_) => "panic -".into(),
+                };
+                self.log(format!("hb {} {} {} -> {} | {}", s, n, c, rs, self.dump()));
+            }
+            Simple::Upd(j, s, t) => {
+                let before: Option<(u64, JobState)> = self
+                    .sched
+                    .jobs
+                    .lock()
+                    .ok()
+                    .and_then(|jobs| jobs.get(&JobId(*j)).map(|d| (sidx(d.server_id), d.state)));
+                let r = std::panic::catch_unwind(std::panic::AssertUnwindSafe(|| {
+                    self.sched.handle_update_job_state(JobId(*j), sid(*s), *t)
+                }));
+                let rs = match r {
+                    Ok(Ok(_)) => "ok",
+                    Ok(Err(_)) => "err",
+                    Err(_) => "panic",
+                };
+                self.log(format!("upd {} {} {} -> {} | {}", j, s, stn(*t), rs, self.dump()));
+                if rs == "ok" {
+                    // only pending->ready->started->complete, only from the owner
+                    let legal = match before {
+                        Some((owner, from)) => {
+                            owner == *s
+                                && matches!(
+                                    (from, *t),
+                                    (JobState::Pending, JobState::Ready)
+                                        | (JobState::Ready, JobState::Started)
+                                        | (JobState::Started, JobState::Complete)
+                                )
+                        }
+                        None => false,
+                    };
+                    if !legal {
+                        self.log(format!(
+                            "MONITOR transition update of job {} to {} from server {} accepted, before: {:?}",
+                            j,
+                            stn(*t),
+                            s,
+                            before.map(|b| (b.0, stn(b.1)))
+                        ));
+                    }
+                }
+            }
+            Simple::Status => {
+                let r = std::panic::catch_unwind(std::panic::AssertUnwindSafe(|| self.sched.handle_status()));
+                match r {
+                    Ok(Ok(x)) => {
+                        self.log(format!(
+                            "status -> {} {} {} | {}",
+                            x.num_servers,
+                            x.num_cpus,
+                            x.in_progress,
+                            self.dump()
+                        ));
+                        let live = self.sched.jobs.lock().map(|j| j.len()).unwrap_or(usize::MAX);
+                        if x.in_progress != live {
+                            self.log(format!("MONITOR in_progress reported {} live jobs {}", x.in_progress, live));
+                        }
+                    }
+                    _ => self.log("status -> panic | poisoned".into()),
+                }
+            }
+        }
+    }
+}
+
+struct Req<'a> {
+    ctx: &'a Ctx,
+    outcome: String,
+    nested: Vec<Simple>,
+}
+impl SchedulerOutgoing for Req<'_> {
+    fn do_assign_job(
+        &self,
+        server_id: ServerId,
+        job: JobId,
+        _tc: Toolchain,
+        _auth: String,
+    ) -> Result<AssignJobResult> {
+        self.ctx.log(format!(
+            "choose {} -> ok {} | {}",
+            sidx(server_id),
+            job.0,
+            self.ctx.dump()
+        ));
+        for op in &self.nested {
+            self.ctx.simple(op);
+        }
+        match self.outcome.as_str() {
+            "fail" => {
+                self.ctx.log(format!("afail {} {}", job.0, sidx(server_id)));
+                Err(anyhow::anyhow!("scripted assign failure"))
+            }
+            "pending" => {
+                self.ctx.log(format!("record {} {} pending", job.0, sidx(server_id)));
+                Ok(AssignJobResult {
+                    state: JobState::Pending,
+                    need_toolchain: true,
+                })
+            }
+            _ => {
+                self.ctx.log(format!("record {} {} ready", job.0, sidx(server_id)));
+                Ok(AssignJobResult {
+                    state: JobState::Ready,
+                    need_toolchain: false,
+                })
+            }
+        }
+    }
+}
+
+fn run_case(ops: &[Op]) -> Vec<String> {
+    let ctx = Ctx::new();
+    for op in ops {
+        if ctx.dump() == "poisoned" {
+            break;
+        }
+        match op {
+            Op::S(s) => {
+                ctx.simple(s);
+                ctx.monitor("a top-level message");
+            }
+            Op::Alloc(outcome, nested) => {
+                let before = ctx.out.borrow().len();
+                let req = Req {
+                    ctx: &ctx,
+                    outcome: outcome.clone(),
+                    nested: nested.clone(),
+                };
+                let r = std::panic::catch_unwind(std::panic::AssertUnwindSafe(|| {
+                    ctx.sched.handle_alloc_job(
+                        &req,
+                        Toolchain {
+                            archive_id: "abcd".into(),
+                        },
+                    )
+                }));
+                let d = ctx.dump();
+                {
+                    let mut out = ctx.out.borrow_mut();
+                    // the pending "afail"/"record" line (if any) gets its result and the dump after the handler returned
+                    let pend = out
+                        .iter()
+                        .rposition(|l| (l.starts_with("afail") || l.starts_with("record")) && !l.contains("->"));
+                    match (r, pend) {
+                        (Ok(Ok(AllocJobResult::Fail { .. })), None) if out.len() == before => {
+                            out.push(format!("choose none -> fail - | {}", d))
+                        }
+                        (Ok(Ok(_)), Some(i)) => {
+                            let l = out[i].clone();
+                            out[i] = format!("{} -> ok | {}", l, d);
+                        }
+                        (Ok(Err(_)), Some(i)) => {
+                            let l = out[i].clone();
+                            out[i] = format!("{} -> err | {}", l, d);
+                        }
+                        (Err(_), Some(i)) => {
+                            let l = out[i].clone();
+                            out[i] = format!("{} -> panic | {}", l, d);
+                        }
+                        (r, p) => out.push(format!("UNEXPECTED {:?} {:?}", r.map(|x| x.map(|_| ())), p)),
+                    }
+                }
+                ctx.monitor("an allocation");
+            }
+        }
+    }
+    ctx.out.into_inner()
+}
+
+fn simple_str(s: &Simple) -> String {
+    match s {
+        Simple::Hb(a, b, c) => format!("hb {} {} {}", a, b, c),
+        Simple::Upd(j, s, t) => format!("upd {} {} {}", j, s, stn(*t)),
+        Simple::Status => "status".into(),
+    }
+}
+fn script_of(ops: &[Op]) -> String {
+    let mut o = String::from("new\n");
+    for op in ops {
+        match op {
+            Op::S(s) => {
+                let _ = writeln!(o, "{}", simple_str(s));
+            }
+            Op::Alloc(out, nested) => {
+                let _ = writeln!(o, "alloc {} {}", out, nested.len());
+                for n in nested {
+                    let _ = writeln!(o, "{}", simple_str(n));
+                }
+            }
+        }
+    }
+    o
+}
+fn parse_simple(l: &str) -> Option<Simple> {
+    let t: Vec<&str> = l.split_whitespace().collect();
+    let n = |i: usize| t.get(i).and_then(|x| x.parse::<u64>().ok());
+    match *t.first()? {
+        "hb" => Some(Simple::Hb(n(1)?, n(2)?, n(3)?)),
+        "upd" => Some(Simple::Upd(n(1)?, n(2)?, stp(t.get(3)?))),
+        "status" => Some(Simple::Status),
+        _ => None,
+    }
+}
+fn parse_script(s: &str) -> Vec<Vec<Op>> {
+    let mut cases = vec![];
+    let mut cur: Option<Vec<Op>> = None;
+    let lines: Vec<&str> = s
+        .lines()
+        .map(|l| l.trim())
+        .filter(|l| !l.is_empty() && !l.starts_with('#'))
+        .collect();
+    let mut i = 0;
+    while i < lines.len() {
+        let l = lines[i];
+        if l == "new" {
+            if let Some(c) = cur.take() {
+                cases.push(c);
+            }
+            cur = Some(vec![]);
+        } else if let Some(rest) = l.strip_prefix("alloc ") {
+            let t: Vec<&str> = rest.split_whitespace().collect();
+            let k: usize = t.get(1).and_then(|x| x.parse().ok()).unwrap_or(0);
+            let mut nested = vec![];
+            for j in 0..k {
+                if let Some(s) = lines.get(i + 1 + j).and_then(|l| parse_simple(l)) {
+                    nested.push(s);
+                }
+            }
+            i += k;
+            cur.get_or_insert_with(Vec::new).push(Op::Alloc(t[0].to_string(), nested));
+        } else if let Some(s) = parse_simple(l) {
+            cur.get_or_insert_with(Vec::new).push(Op::S(s));
+        }
+        i += 1;
+    }
+    if let Some(c) = cur {
+        cases.push(c);
+    }
+    cases
+}
+
+struct Rng(u64);
+impl Rng {
+    fn below(&mut self, n: u64) -> u64 {
+        let mut s = self.0;
+        s ^= s << 13;
+        s ^= s >> 7;
+        s ^= s << 17;
+        self.0 = s;
+        s % n
+    }
+}
+
+fn gen_simple(rng: &mut Rng, jobs_hint: u64) -> Simple {
+    match rng.below(5) {
+        0 | 1 => Simple::Hb(rng.below(3), rng.below(4), rng.below(3)),
+        2 | 3 => Simple::Upd(rng.below(jobs_hint + 1), rng.below(3), st(rng.below(4))),
+        _ => Simple::Status,
+    }
+}
+
+fn gen_case(rng: &mut Rng) -> Vec<Op> {
+    let n = 4 + rng.below(14);
+    let mut ops = vec![];
+    let mut allocs = 0u64;
+    for _ in 0..n {
+        if rng.below(3) == 0 {
+            let nested = (0..rng.below(3)).map(|_| gen_simple(rng, allocs + 1)).collect();
+            let outcome = match rng.below(4) {
+                0 => "fail",
+                1 => "pending",
+                _ => "ready",
+            };
+            allocs += 1;
+            ops.push(Op::Alloc(outcome.into(), nested));
+        } else {
+            ops.push(Op::S(gen_simple(rng, allocs)));
+        }
+    }
+    ops
+}
+
+pub fn run(spec: &str) -> i32 {
+    std::panic::set_hook(Box::new(|_| {}));
+    let p: Vec<&str> = spec.split(':').collect();
+    match p[0] {
+        "sched-gen" => {
+            let n: u64 = p[1].parse().unwrap();
+            let seed: u64 = p[2].parse().unwrap();
+            let mut rng = Rng(seed.wrapping_mul(6364136223846793005).wrapping_add(1442695040888963407) | 1);
+            let mut trace = String::new();
+            let mut script = String::new();
+            for _ in 0..n {
+                let ops = gen_case(&mut rng);
+                script.push_str(&script_of(&ops));
+                for l in run_case(&ops) {
+                    trace.push_str(&l);
+                    trace.push('\n');
+                }
+            }
+            std::fs::write(p[3], trace).unwrap();
+            std::fs::write(p[4], script).unwrap();
+            0
+        }
+        "sched-run" => {
+            let s = std::fs::read_to_string(p[1]).unwrap();
+            let mut trace = String::new();
+            for ops in parse_script(&s) {
+                for l in run_case(&ops) {
+                    trace.push_str(&l);
+                    trace.push('\n');
+                }
+            }
+            std::fs::write(p[2], trace).unwrap();
+            0
+        }
+        "paths" => {
+            use std::path::Path;
+            let s = std::fs::read_to_string(p[1]).unwrap();
+            let mut out = String::new();
+            for l in s.lines() {
+                let f: Vec<&str> = l.split('\t').collect();
+                if f.len() < 2 {
+                    continue;
+                }
+                let (cwd, path) = (f[0], f[1]);
+                let joined = Path::new(cwd).join(path);
+                let js = crate::build::verif_join_suffix(Path::new("/srv/b/t"), &joined);
+                let parent = Path::new(path).parent().map(|x| x.to_str().unwrap().to_string());
+                let _ = writeln!(
+                    out,
+                    "{}\t{}\t{}\t{}\t{}",
+                    cwd,
+                    path,
+                    joined.to_str().unwrap(),
+                    js.to_str().unwrap(),
+                    parent.unwrap_or("<none>".into())
+                );
+            }
+            std::fs::write(p[2], out).unwrap();
+            0
+        }
+        _ => {
+            eprintln!("unknown SCCACHE_DIST_VERIF spec");
+            2
+        }
+    }
+}
